@@ -12,14 +12,19 @@ implementation, `dec` (exact decimal, normalised) only in model values.
 import math
 import re
 import struct
+import sys
 from fractions import Fraction
 
 from .. import core, diff
 
+if hasattr(sys, "set_int_max_str_digits"):
+    sys.set_int_max_str_digits(0)      # integer tokens such as 1E6000 are compared digit by digit
+
 LEVEL = "proof"
 TRUSTED_BASE = [
     "the DCG of json.pl is modelled as a deterministic recursive-descent parser + first-answer generator (Model/Json.lean); the library itself is tied only by this differential run",
-    "decimal -> IEEE double (round to nearest even) is done by Python's float(); the Lean model stops at the exact decimal a float token denotes",
+    "decimal -> IEEE double (round to nearest even): for documents the Lean parser model stops at the exact decimal a float token denotes and Python's float() rounds it; on every lone number token Python's float() is compared with the Lean rounding model (roundDbl / nearestMag in Model/Json.lean; a difference is reported as 'model-rounding'), so neither conversion is trusted alone",
+    "pinnedMag (the Lean mirror of today's float assembly, used only for the witnesses of finding C41-2 and for the flt_* statistics) takes 10.0^k and float(10^k) to be the double nearest to 10^k; libm's pow differs for a few k (counted as flt_impl_not_nearest_unexplained)",
     "Python renderers: value -> Prolog term text, text -> Prolog string literal, parser of the harness's canonical term syntax (vlib/props/C41.py)",
     "Scryer's reader reads a float literal to the nearest double (checked on every case by echoing the term; mismatching cases are skipped and counted)",
 ]
@@ -27,6 +32,7 @@ ASSUMPTIONS = [
     "values have depth <= 4, strings <= 10 characters, at most 4 elements per container; documents are sent as complete bound lists to phrase/2 (not lazily from a file)",
     "floats: finite doubles only, negative zero excluded; a float result is a violation only (a) when text generated from a float does not parse back to the same float, or (b) when the decimal is exactly representable as a double and the parser returns another value; other decimals that are not read to the nearest double are only counted (float_not_nearest)",
     "a document is 'rejected' when phrase/2 fails or throws; which of the two is not compared",
+    "a batch whose use_module line did not answer true, or whose items raise existence_error(json_chars/3) (library not loaded after a watchdog abort under machine load), is run again item by item, sequentially, before it is judged",
     "integer tokens with more than 4 exponent digits are not generated",
 ]
 
@@ -764,6 +770,11 @@ def make_batch(bid, items):
             "model": [l for it in items for l in item_model_lines(it)]}
 
 
+def lib_missing(b):
+    e = b.get("E") if isinstance(b, dict) else None
+    return e is not None and e[0] == "cmp" and e[1] == "existence_error" and "json_chars" in repr(e)
+
+
 def split_bindings(res, n):
     """result of a batch query -> list of per-item dicts {A,E,C,T}, or None if it is not a binding set"""
     if not (res or "").startswith("{"):
@@ -1017,13 +1028,26 @@ def run(ctx):
     impl, model = diff.run_cases(batches)
     per_item = {}
     redo = []
+    load_trouble = {}
+
+    def usable(bid, sp):
+        """False when the batch has to be run again: no binding set (timeout / panic), or the library
+        was not loaded on that machine (the use_module line hit the watchdog under machine load, every
+        item then raises existence_error(procedure, json_chars/3))"""
+        u = impl_all.get("u" + bid) or "missing"
+        bad = sp is None or not u.startswith("true") or any(lib_missing(b) for b in sp)
+        if bad:
+            k = ("no-bindings: " + str(impl_all.get(bid))[:60]) if sp is None else u[:100]
+            load_trouble[k] = load_trouble.get(k, 0) + 1
+        return not bad
+    impl_all = impl
     for bt in batches:
         try:
             sp = split_bindings(impl.get(bt["id"]), len(bt["items"]))
         except (CanonError, ValueError, IndexError):
             sp = None
-        if sp is None:
-            redo.extend(bt["items"])      # timeout / panic / unreadable: run its items one by one
+        if not usable(bt["id"], sp):
+            redo.extend(bt["items"])      # run its items one by one, sequentially
         else:
             for it, b in zip(bt["items"], sp):
                 per_item[it["id"]] = b
@@ -1031,20 +1055,25 @@ def run(ctx):
         singles = [make_batch("r%s" % it["id"], [it]) for it in redo]
         for s in singles:
             s["model"] = []
-        impl2, _ = diff.run_cases(singles)
+        impl2, _ = diff.run_cases(singles, parallel=False)
+        impl_all = impl2
         for s in singles:
             it = s["items"][0]
             try:
                 sp = split_bindings(impl2.get(s["id"]), 1)
             except (CanonError, ValueError, IndexError):
                 sp = None
-            per_item[it["id"]] = sp[0] if sp else ("raw", impl2.get(s["id"]))
+            if usable(s["id"], sp):
+                per_item[it["id"]] = sp[0]
+            else:
+                per_item[it["id"]] = ("raw", "unusable(%s / %s)" % (impl2.get("u" + s["id"]), impl2.get(s["id"])))
     stats = {k: 0 for k in ("valid", "rejected_by_failure", "rejected_by_error", "float_not_nearest", "float_out_of_range",
                             "float_docs", "reader_mismatch", "skipped", "gen_text_compared", "gen_parsed_back_by_model",
                             "flt_tokens", "flt_impl_nearest", "flt_impl_nearest_where_pinned_model_differs",
                             "flt_impl_not_nearest_equals_pinned_model", "flt_impl_not_nearest_unexplained",
                             "flt_impl_error_as_pinned_model")}
-    stats["batches_rerun_item_by_item"] = len(redo)
+    stats["items_rerun_one_by_one"] = len(redo)
+    stats["load_trouble"] = load_trouble
     findings, agree = [], 0
     second = []
     distinct = set()
